@@ -1,8 +1,15 @@
 """Plain in-process simulator stubs for C15 (NOT subclasses of mosaik_api_v3.Simulator: the base
 class would fill in api_version and type).  The meta they return and a log of the calls they
 receive are module globals set by the recorder."""
-CONFIG = {"meta": None}
+CONFIG = {"meta": None, "fail": None}  # fail = [index of the step call that raises (1-based), exception class name]
 LOG = []
+EXC = {"ValueError": ValueError, "RuntimeError": RuntimeError, "KeyError": KeyError, "TypeError": TypeError}
+
+
+def _maybe_fail():
+    f = CONFIG.get("fail")
+    if f and sum(1 for x in LOG if x[0] == "step") == f[0]:
+        raise EXC[f[1]]("injected failure of the simulator's step")
 
 
 class _Base:
@@ -28,6 +35,7 @@ class V3Sig(_Base):
 
     def step(self, time, inputs, max_advance):
         LOG.append(["step", [time, inputs, max_advance], {}])
+        _maybe_fail()
         return time + 1
 
 
@@ -40,6 +48,7 @@ class V3SigDefault(_Base):
 
     def step(self, time, inputs, max_advance="absent"):
         LOG.append(["step", [time, inputs] + ([max_advance] if max_advance != "absent" else []), {}])
+        _maybe_fail()
         return time + 1
 
 
@@ -50,4 +59,5 @@ class OldSig(_Base):
 
     def step(self, time, inputs):
         LOG.append(["step", [time, inputs], {}])
+        _maybe_fail()
         return time + 1
